@@ -16,6 +16,24 @@ CLAIMED = {
             "Trusted: symx engine (normal-form rewrites validated against z3 and concrete evaluation), z3 5.1, symbolic-aware abs injected "
             "into the module namespace. Bound: index 0..255 quick / 0..1023 thorough; coefficient unbounded.",
             "symbolic execution of the real Python functions (symx) + z3 Int, unsat per path", "3 C12"),
+    "C02": (MC,
+            "Symbolic execution of the real parse_stream on committed fixture streams in which chosen byte regions (every parse-info block, "
+            "pairs of blocks, 2-byte windows over all headers and transform parameters, the first slice bytes, a 12-14 byte stream prefix) "
+            "are fully symbolic bits, plus a symbolic truncation point; the exploration of each region is exhaustive (every feasible path, "
+            "feasibility decided by z3); a path ending in anything but acceptance or a ConformanceError is a violation with the model's bytes "
+            "as witness; every path's model is re-run on the plain decoder (same verdict) and every ConformanceError is pushed through the "
+            "validator's reporting code.",
+            "Trusted: symx engine, z3 5.1, SymFile, resource-bound wrapper (paths declaring sizes above the bounds are counted out_of_scope), "
+            "relaxed value tables for levels 1/64/66. Bound: symbolic regions of 2-18 bytes on 12 (quick) / 23 (thorough) fixtures.",
+            "symbolic execution of the real decoder (symx) over symbolic byte regions, z3 path feasibility, exhaustive within region", "3 C02"),
+    "C01": (MC,
+            "Streams are assembled from data-unit blocks cut from committed fixtures; block orders are enumerated (curated interaction "
+            "orders + seeded sample of the product) and all next/previous parse offsets (32 bit), picture numbers (32 bit) and fragment "
+            "offsets (16 bit) are symbolic. On every path of the real decoder z3 proves that the verdict equals an independent reference "
+            "predicate of the stream-structure rules (hand-written automata for level patterns) and that rejections are ConformanceErrors.",
+            "Trusted: the reference predicate lib/blocks.py (my reading of the property statement), symx, z3. Orders are enumerated, not "
+            "solved: quick 700 + 43 curated orders of <=3 units, thorough 12000 of <=4 units (fraction of the product reported).",
+            "symbolic execution of the real decoder (symx) vs reference predicate, z3 equivalence per path", "3 C01"),
     "C20": (MC,
             "Symbolic execution of the real BitstreamReader/BitstreamWriter and of the decoder's read_* functions on the same buffer of "
             "symbolic bits: per path (one per exp-Golomb length class / end-of-file point / block length) z3 proves equal values, equal tell(), "
